@@ -11,7 +11,7 @@ COMMON_NOTE = ("Trusted: Coq 8.16.1 kernel incl. vm_compute (no native_compute);
                "the RP's policy containers reused after in-place edits, clones of every result, parameters newly added to entry points (DESIGN 2.9). ")
 CLAIMS = {
  "C14": dict(
-   text="Machine-checked theorems (all byte strings, any length, any amount of '=' padding): round trip, alphabet, injectivity, over an exact Gallina model of CPython's lenient base64 decoder; the model is tied to the code by exhaustive (length 0-2) and seeded differential execution.",
+   text="Machine-checked theorems (all byte strings, any length, any amount of '=' padding): round trip, alphabet, injectivity, the length law ceil(4n/3) of every length class, decoder output always bytes, and the decoder's leniency (foreign characters skipped anywhere, both alphabets accepted - decoding is many-to-one, so canonicity rests on the encoder), over an exact Gallina model of CPython's lenient base64 decoder; the model is tied to the code by exhaustive (length 0-2) and seeded differential execution.",
    note="CPython's base64/binascii are modelled exactly and validated differentially, not verified. No axioms (Print Assumptions: closed).",
    technique="Coq proof by induction in steps of three bytes + lia; correspondence check via extracted OCaml model", ref="3/C14"),
  "C01": dict(
@@ -19,7 +19,7 @@ CLAIMS = {
    note="Soundness needs no oracle hypothesis. CPython json/base64 and cbor2 (subset) are modelled; cryptography is an oracle.",
    technique="Coq proof (error-monad inversion, iff characterisation) + correspondence/fault-catalogue differential check", ref="3/C01"),
  "C07": dict(
-   text="Theorems: counter_ok s c <-> c>s or c=s=0 (lia); acceptance implies the rule and new_sign_count = big-endian bytes 33..37, 0<=c<2^32; for EVERY history of presentations (induction, any length, any oracle) the stored counter is non-decreasing and a non-zero-counter assertion is never accepted twice. Correspondence: boundary grid, random pairs, exhaustive short histories through the real API.",
+   text="Theorems: counter_ok s c <-> c>s or c=s=0 (lia); acceptance implies the rule and new_sign_count = big-endian bytes 33..37, 0<=c<2^32; for EVERY history of presentations (induction, any length, any oracle) the stored counter is non-decreasing and a non-zero-counter assertion is never accepted twice (stated per step and for whole histories h1 ++ c :: h2 ++ [c]: the second presentation is refused and leaves the RP state unchanged; the stored counter stays below 2^32). Correspondence: boundary grid, random pairs, exhaustive short histories through the real API.",
    note="Raw record inputs are assumed to consist of bytes (cred_wf); text/dict inputs need no assumption (decoder output proved in range).",
    technique="Coq proof by induction over presentation histories + lia; differential histories", ref="3/C07"),
  "C09": dict(
